@@ -131,9 +131,12 @@ pub fn run_jit(_tmpl: &'static [u8], _ovr: [(usize, u8); 4], code: [u8; 3], r0: 
   if r0.pc > 0x7ff0 { eprintln!("VERIF-NOREPLAY pc outside ROM"); return bad; }
   let mut m = cpuh::native::areas();
   if !cpuh::native::place(&mut m, r0.pc, code, expect) { return bad; }
-  if !is_end { cpuh::native::poke(&mut m, r0.pc.wrapping_add(expect.len), 0x76); }
+  if !is_end { cpuh::native::poke_code(&mut m, r0.pc.wrapping_add(expect.len), 0x76); }
   let mut cache = crate::cache::CodeCache::new();
+  // translate while bank 2 is mapped (same code, complemented data), execute with bank 3 mapped like the interpreter
+  cpuh::native::map_bank(&mut m, 2);
   let addr = cache.translate_code_block(&m.rom, r0.pc as usize, m.as_ptr());
+  cpuh::native::map_bank(&mut m, 3);
   let status = cache.call(addr, &mut regs);
   let bus_ok = cpuh::native::writes_landed(&m, expect);
   core::mem::forget(m);
